@@ -187,6 +187,8 @@ func suiteCodec(seed uint64, tier string) *Report {
 		n = 6000
 	}
 	var cases []*Case
+	child := &decChild{}
+	defer child.stop()
 	monitor := func(ops, impl []string) []Violation { return nil }
 	_ = monitor
 	for i := 0; i < n; i++ {
@@ -236,7 +238,17 @@ func suiteCodec(seed uint64, tier string) *Report {
 				if cr.Chance(1, 20) {
 					mb = cr.Bytes(cr.Intn(40))
 				}
-				mout, _ := implDec(mb)
+				mout, alloc, died := child.decode(mb)
+				if died {
+					// the model never dies: keep the lines comparable and report the input
+					viols = append(viols, Violation{Property: "C11", What: "decoding damaged bytes took the process down (" + mout + "): an allocation sized from the data",
+						Detail: fmt.Sprintf("%d input bytes", len(mb)), Ops: []string{"dec " + hx(mb)}, Impl: []string{mout}})
+					mout = "err"
+					rep.Dist["decode:child-died"]++
+				} else if alloc > 8*uint64(len(mb))+(1<<20) {
+					viols = append(viols, Violation{Property: "C11", What: "Decode allocated memory out of proportion to the damaged input (sized from a length field in the data)",
+						Detail: fmt.Sprintf("%d bytes allocated for %d input bytes", alloc, len(mb)), Ops: []string{"dec " + hx(mb)}, Impl: []string{mout}})
+				}
 				c.Ops = append(c.Ops, "dec "+hx(mb))
 				c.Impl = append(c.Impl, mout)
 				if mout == "panic" {
